@@ -34,7 +34,17 @@ MECHS = {
 def _extras():
     from pypika_tortoise import AliasedQuery, Database, Query, Schema, Table
     from pypika_tortoise.queries import Column, Cte
-    from pypika_tortoise.terms import Interval
+    from pypika_tortoise.terms import Interval, ValueWrapper
+
+    def _not_used():
+        n = ~Table("t").data
+        n.get_json_value("k")  # a delegated method has been looked up (and possibly cached) before duplication
+        n.has_key("k2")
+        return n
+
+    def _field_of_mutable_sub():
+        sub = Query.from_(Table("t"), immutable=False).select("a").as_("ms")
+        return sub.a
 
     return {
         "schema": lambda: Schema("s"),
@@ -49,6 +59,12 @@ def _extras():
         "interval": lambda: Interval(days=2, hours=3),
         "joiner_result": lambda: Query.from_(Table("t")).join(Table("u")).on_field("id").select("*"),
         "immutable_false": lambda: Query.from_(Table("t"), immutable=False).select("a"),
+        "not_field_used": _not_used,
+        "query_with_used_not": lambda: Query.from_(Table("t")).select("a").where(_not_used()),
+        "field_of_mutable_subquery": _field_of_mutable_sub,
+        "query_on_mutable_subquery": lambda: (lambda sub: Query.from_(sub).select(sub.a).where(sub.a > 1))(
+            Query.from_(Table("t"), immutable=False).select("a").as_("ms")),
+        "wrapper_not_parametrized": lambda: Query.from_(Table("t")).select(ValueWrapper("keep", allow_parametrize=False).as_("k")),
     }
 
 
@@ -85,6 +101,46 @@ def expand(chunk):
 
 def mclass(m):
     return "pickle" if m.startswith("pickle") else m
+
+
+def _mutables(o):
+    """id -> description of every mutable object reachable from o (containers and objects with a __dict__)"""
+    import enum
+    import types
+
+    out, stack, path = {}, [(o, "")], None
+    while stack:
+        x, pth = stack.pop()
+        if id(x) in out:
+            continue
+        if isinstance(x, (type, types.FunctionType, types.BuiltinFunctionType, types.ModuleType, enum.Enum, str, bytes, int, float,
+                          bool, type(None), tuple, frozenset)) and not isinstance(x, tuple):
+            continue
+        d = fp.odict(x)
+        if isinstance(x, tuple):
+            for i, y in enumerate(x):
+                stack.append((y, pth))
+            continue
+        if isinstance(x, (list, set)):
+            out[id(x)] = pth or type(x).__name__
+            for y in x:
+                stack.append((y, pth))
+        elif isinstance(x, dict):
+            out[id(x)] = pth or "dict"
+            for k, y in x.items():
+                stack.append((y, pth + "." + str(k)))
+        elif d is not None:
+            if type(x).__name__ == "SqlContext":
+                continue
+            out[id(x)] = pth + ":" + type(x).__name__
+            for k, y in d.items():
+                stack.append((y, pth + "." + k))
+    return out
+
+
+def shared_mutables(a, b):
+    ma, mb = _mutables(a), _mutables(b)
+    return sorted(ma[i] for i in set(ma) & set(mb))
 
 
 def dynamic_ok(dup):
@@ -160,6 +216,12 @@ def run_case(case):
         return res
     if obs(o) != o0:
         res.violate("C15|%s|original-changed|%s" % (mclass(mech), tname), "duplicating changed the original", key=key, mech=mech)
+    if mech != "copy":
+        shared = shared_mutables(o, dup)
+        if shared:
+            res.violate("C15|%s|shares-mutable-state|%s|%s" % (mclass(mech), tname, shared[0]),
+                        "the deep duplicate shares a mutable object (%s) with the original: a later in-place change of one side "
+                        "would change the other" % ", ".join(shared[:3]), key=key, mech=mech)
     for pr in dynamic_ok(dup):
         res.violate("C15|%s|dynamic-attr|%s" % (mclass(mech), tname), pr, key=key, mech=mech)
     if case["kind"] != "decouple":
